@@ -3467,6 +3467,11 @@ static Token *function(Token *tok, Type *basety, VarAttr *attr) {
   if (consume(&tok, tok, ";"))
     return tok;
 
+  // More declarators may follow a function declarator,
+  // e.g. "int f(void), g(void), x;".
+  if (equal(tok, ","))
+    return global_variable(tok->next, basety, attr);
+
   current_fn = fn;
   locals = NULL;
   scope = fn_scope;
@@ -3512,11 +3517,17 @@ static Token *global_variable(Token *tok, Type *basety, VarAttr *attr) {
       tok = skip(tok, ",");
     first = false;
 
+    Token *start = tok;
     Type *ty = declarator(&tok, tok, basety);
     if (!ty->name)
       error_tok(ty->name_pos, "variable name omitted");
     if (ty->kind == TY_VLA)
       error_tok(ty->name, "variable length array at file scope");
+
+    // A function declarator in the middle of a list declares a
+    // function, not a variable, e.g. "int x, f(void);".
+    if (ty->kind == TY_FUNC)
+      return function(start, basety, attr);
 
     Obj *var = new_gvar(get_ident(ty->name), ty);
     var->is_definition = !attr->is_extern;
